@@ -1055,7 +1055,7 @@ Proof.
   intros Hb Hrd. unfold gbp_final_x, gbp_final.
   destruct ((tt =? T_LIST) || (tt =? T_MAP)); [|reflexivity].
   rewrite sae_x_eq; [reflexivity | assumption | assumption |].
-  intros Hp _. apply numeric_wt_progress. destruct lbl; cbn [desc_packed] in Hp; try discriminate. exact Hp.
+  intros Hp _. apply numeric_wt_progress. destruct lbl; cbn [desc_packed] in Hp; try discriminate. apply andb_prop in Hp; exact (proj2 Hp).
 Qed.
 
 Lemma sfi_x_eq buf rd0 id lim :
